@@ -21,6 +21,10 @@ CLAIMED = {
             "Static decision of the stale-cache clauses of DESIGN section 3 C16: every cache filler reads only variables that invalidate its depends-on stage (or are explicitly invalidated / never written); "
             "position-cached forces read nothing later than Position; Gravity's explicit invalidation pairing; cachedForcesAreValid and FunctionBased manual flags are reset/set on all paths. "
             "Holds for every realization history since every computed result lives in such a cache; numerical equality of two histories and matter-subsystem reads through SBStateDigest are not decided."),
+    "C38": ("TOPO (setter => topology invalidation), shared STAGE/POSONLY, enabled-flag GUARD, enabled-list REACHDEF and Gravity PREFILL path rules",
+            "Static decision of one clause of C38 only -- 'changes to an element's parameters, enable state or exclusions take effect at the next realization' (DESIGN section 3): "
+            "every topology-parameter write invalidates the topology cache; every parameter variable's invalidation stage is coherent with what caches it; every per-force call honours the enabled flag; "
+            "Gravity's zero/NaN pre-fill accompanies every parameter change that needs it. The force laws and energies themselves are numerical and are NOT decided."),
 }
 NA = {
  "C01": "numerical identity between O(n) recursions; no clause is visible in the shape of the code",
